@@ -32,23 +32,41 @@ EXPLANATION = (
     "Lean transition system over the shared state-store model (WfModel/StateStore.lean, section C20): any number of tasks, each "
     "one set / set_state / clear / edit_state on one store; `run t` executes the next await-free section of task t (lock fast "
     "path or FIFO enqueue, resume of the queue head when the lock is free, each chunk of an edit_state body between two awaits, "
-    "the last one together with save+release); which operations take the lock is regenerated from the source. Theorems, by "
-    "induction over arbitrary schedules with the invariant `store = serial fold of the completion log, plus: finishing the "
-    "holder's remaining chunks yields its sequential edit applied to that fold`: every complete interleaving ends in the store "
-    "of some permutation of the operations run serially (both backends, generic proof + per-backend edit law), that serial run "
-    "is the C19 sequential machine and therefore the nested-dict spec; no step of another task writes while a block is open; "
-    "and the pre-repair SQLite discipline (set_state/clear unlocked) provably loses an update on a 3-action schedule. Tie: lock "
-    "flags from source (C20_source_shape breaks when a writer leaves the lock); real InMemoryStateStore and SqliteStateStore "
-    "are driven by real asyncio Tasks under a scripted scheduler, one await-free section per action, over all interleavings of "
-    "2-3 operations (seeded random schedules for 4-5), and after every action store content, lock holder, waiter FIFO and "
-    "per-task position are diffed against the model driver. Monitors (model-independent): final state is one of the serial "
-    "outcomes computed on the real store, both backends reach the same set of final states, snapshots taken mid-schedule keep "
-    "their top-level mapping, no task is left stuck."
+    "the last one together with save+release); `cancel t` is Task.cancel() from outside, turned into a CancelledError by the "
+    "task's next section: before it started, while queued on the lock (waiter future cancelled, or lock already handed over and "
+    "only _must_cancel set: it leaves the FIFO, a free lock goes to the next waiter, undelivered cancelled waiters do not block "
+    "the acquire fast path), or at an await inside an edit_state body (lock released, nothing saved; the finished chunks stay in "
+    "memory where the body mutates self._state itself, vanish on SQLite where it mutates a deserialised copy). Which operations "
+    "take the lock, and that the lock is only ever used as `async with self._lock`, is regenerated from the source. Theorems, by "
+    "induction over arbitrary schedules with the invariant `store = serial fold of the log of the tasks that took effect, plus: "
+    "finishing the holder's remaining chunks yields its sequential edit applied to that fold, and leaving the block now yields "
+    "the edit of what it keeps`: every interleaving after which all tasks have ended (completed / cancelled / aborted inside the "
+    "body) ends in the store of the serial run, in some order, of exactly the tasks that took effect (both backends, generic proof "
+    "+ per-backend edit/publish/abort laws); without cancellations that is a permutation of all tasks, and the serial run is the "
+    "C19 sequential machine and therefore the nested-dict spec; no section of another task and no cancellation request to it "
+    "writes or takes the lock away while a block is open; the pre-repair SQLite discipline (set_state/clear unlocked) and a lock "
+    "that a cancelled waiter gives back (explicit acquire/finally-release) provably lose an update on 3- and 6-action schedules. "
+    "Tie: lock flags from source (C20_source_shape, C20_source_shape_scoped_lock break when a writer leaves the lock or the lock "
+    "is used other than through `async with`); real InMemoryStateStore and SqliteStateStore are driven by real asyncio Tasks "
+    "under a scripted scheduler, one await-free section or one Task.cancel() per action, over all interleavings of 2-3 "
+    "operations with 0-2 cancellable tasks (seeded random schedules for 4-5 and beyond the cap), and after every action store "
+    "content, lock holder, waiter FIFO, per-task position (incl. pending cancellation: Ic / Wc / Wm / Bkc, ended: D / X / A) and "
+    "log are diffed against the model driver. Monitors (model-independent): final state is one of the serial outcomes, computed "
+    "on the real store, of the operations that took effect; both backends reach the same set of final states; snapshots taken "
+    "mid-schedule keep their top-level mapping; no task is left stuck (a cancelled waiter must not block the lock)."
 )
 LEVEL_TEXT = "proof (Lean 4) of the model + per-action correspondence with both real stores under a scripted scheduler + direct monitors"
 ASSUMPTIONS = [
-    "asyncio.Lock of CPython 3.12 (fast path only when unlocked and no live waiter, FIFO wake-up) and Task stepping are "
-    "modelled as holder + FIFO queue; they are exercised on every run, not verified; cancellation of store operations is not modelled",
+    "asyncio.Lock of CPython 3.12 (fast path only when unlocked and no live waiter, FIFO wake-up, cancelled waiter removes "
+    "itself and wakes the next one when the lock is free) and Task stepping / Task.cancel() (future cancelled, or _must_cancel "
+    "when the future already has its result) are modelled as holder + FIFO queue + per-task position; they are exercised on "
+    "every run, not verified",
+    "cancellation is a request from outside the tasks (step timeout, run cancellation), at most one per task, delivered at the "
+    "task's next suspension point; asyncio.shield / Task.uncancel, cancellation of readers, and a CancelledError raised at a "
+    "point other than the lock acquisition or an await of the edit_state body are not modelled (the store methods have no other "
+    "await)",
+    "a task cancelled inside its edit_state body counts in the serial order with what it left in the store: the finished chunks "
+    "in memory (the body mutates the live object; the property does not ask cancelled blocks to be atomic), nothing on SQLite",
     "store methods contain no await other than the lock acquisition and the user's awaits inside an edit_state body (true of "
     "both stores: the SQLite store does blocking sqlite3 calls inside coroutines); the per-action correspondence would expose "
     "an additional suspension point as an extra section",
@@ -60,7 +78,7 @@ ASSUMPTIONS = [
 ]
 TRUSTED_EXTRA = [
     "harness/sloop.py: scripted scheduler over asyncio.BaseEventLoop (CPython private attributes _ready, Handle._run, "
-    "Task._fut_waiter, Lock._locked, Lock._waiters)",
+    "Task._fut_waiter, Task._must_cancel, Lock._locked, Lock._waiters)",
     "harness/ss_common.py, harness/ss_models.py, harness/gen/statestore.py (shared with C19)",
 ]
 
@@ -275,6 +293,8 @@ def act_line(a: int) -> str:
 
 def line_act(line: str) -> int | None:
     f = line.split("|")
+    if len(f) != 2 or not f[1].isdigit():
+        return None
     if f[0] == "crun":
         return int(f[1])
     if f[0] == "ccancel":
@@ -527,9 +547,10 @@ def run(env: Env) -> Outcome:
     from .. import ss_common as S
 
     out = Outcome()
-    out.rule = ("per action: driver(Sys mem/sql) == observed (store content, lock holder, waiter FIFO, task positions, completion "
-                "log); monitors: final state of every interleaving is a serial outcome of the real store, both backends reach "
-                "the same set of final states, mid-run snapshots keep their top level, nothing is stuck")
+    out.rule = ("per action (section of a task / Task.cancel()): driver(Sys mem/sql) == observed (store content, lock holder, waiter "
+                "FIFO, task positions incl. pending cancellations, log); monitors: final state of every interleaving is a serial "
+                "outcome, on the real store, of the operations that took effect (all of them without cancellation); both backends "
+                "reach the same set of final states; mid-run snapshots keep their top level; nothing is stuck")
     sqlenv = S.SqlEnv()
     explorers: list[tuple[str, Explorer]] = []
     try:
@@ -574,10 +595,10 @@ def run(env: Env) -> Outcome:
                 if mode == "fixed":
                     ex.fixed(sc["schedule"])
                 elif mode == "exhaustive":
-                    complete = ex.exhaustive(cap if not ex.cancellable else 2 * cap)
+                    complete = ex.exhaustive(cap if not ex.cancellable else (2 if env.tier == "quick" else 3) * cap)
                     out.count("exhaustive_complete" if complete else "exhaustive_capped")
                     if not complete and ex.cancellable:  # the depth-first order reaches only late cancellations before the cap
-                        ex.random_cancels(env.rng, 30 if env.tier == "quick" else 80)
+                        ex.random_cancels(env.rng, 20 if env.tier == "quick" else 80)
                 elif ex.cancellable:
                     ex.random_cancels(env.rng, 12 if env.tier == "quick" else 40)
                 else:
@@ -623,11 +644,24 @@ def run(env: Env) -> Outcome:
             lines += ex.lines
             impl += ex.impl
             owner += [idx] * len(ex.lines)
+        # malformed and out-of-range actions: the driver answers them, it does not guess (a finished or already
+        # cancelled task cannot be cancelled again: Task.cancel() returns False / changes nothing)
+        extra = [(f"cinit|mem|dict|{S.schema_enc()}|-", "ok"), ("ctask|clear", "ok"), ("ccancel|", "bad-op"), ("ccancel|x", "bad-op"),
+                 ("ccancel|0|1", "bad-op"), ("crun|-1", "bad-op"), ("ccancel|7", "disabled"), ("crun|7", "disabled"),
+                 ("ccancel|0", "ok state dict o0 holder=- queue= pcs=Ic log="), ("ccancel|0", "disabled"),
+                 ("crun|0", "ok state dict o0 holder=- queue= pcs=X log="), ("ccancel|0", "disabled"), ("crun|0", "disabled")]
+        lines += [l for l, _ in extra]
+        impl += [e for _, e in extra]
+        owner += [-1] * len(extra)
+        out.count("malformed_or_disabled_actions", len(extra) - 2)
         model_out = Driver(MODEL).run(lines) if lines else []
         seen_div = 0
         for i, (mo, io) in enumerate(zip(model_out, impl)):
             if line_act(lines[i]) is not None:
                 out.disagreements_checked += 1
+            if mo != io and owner[i] < 0:
+                out.divergences.append(Divergence(f"{MODEL}/sys-malformed", i, lines[i], mo, io, None))
+                continue
             if mo != io:
                 tag, ex = explorers[owner[i]]
                 # the schedule this line belongs to: back to the preceding cinit
